@@ -23,11 +23,17 @@ import (
 //     finds malformed (bad index, bad Huffman incl. EOS/padding, oversized table
 //     update, truncated at Close) is not accepted; a block the reference decodes
 //     is rejected only with the decoder's own limit errors; on overall success
-//     the fields and the dynamic table equal the reference's.
+//     the fields and the dynamic table equal the reference's;
+//   - reuse: when the first of two blocks is rejected (by Write or by Close) the
+//     same Decoder is given the second block as a new header block; nothing of
+//     the rejected block may show in it: fields, acceptance and rejection of the
+//     second block are judged against the reference decoding that block alone.
 
 type c02Case struct {
 	Desc  string `json:"desc"`
 	Block string `json:"block_hex"`
+	// Cut > 0: present the input only as the two blocks Block[:Cut], Block[Cut:].
+	Cut int `json:"cut,omitempty"`
 }
 
 func c02Grid(thorough bool) []c02Cfg {
@@ -47,15 +53,83 @@ func c02Grid(thorough bool) []c02Cfg {
 }
 
 // c02Judge applies the oracle to one run. It returns false after reporting.
-func c02Judge(w *vx.W, x c02Case, cfg c02Cfg, blocks [][]byte, impl *c02ImplRun, ref *c02RefRun) bool {
+func c02Judge(w *vx.W, x c02Case, cfg c02Cfg, blocks [][]byte, impl *c02ImplRun, ref *c02RefRun, det func(bi int) *c02RefBlock) bool {
 	ctx := func() string {
-		return fmt.Sprintf("blocks %s (%s) %v: decoder %s after %d ok blocks, emitted %s; reference %s (%s) after %d ok blocks, fields %s",
+		s := fmt.Sprintf("blocks %s (%s) %v: decoder %s after %d ok blocks, emitted %s; reference %s (%s) after %d ok blocks, fields %s",
 			c02Chunks(blocks), x.Desc, cfg, c02ErrClass(impl.Err), impl.Blocks, c02FieldList(impl.Fields), ref.Status, ref.Detail, ref.Blocks, c02FieldList(ref.Fields))
+		for i, p := range impl.Post {
+			s += fmt.Sprintf("; same decoder, block %d as a new header block: %s, emitted %s", impl.ErrBlk+1+i, c02ErrClass(p.Err), c02FieldList(p.Fields))
+		}
+		return s
 	}
 	if impl.BadSig != "" {
 		w.Failf("C02/invariant/"+impl.BadSig, "%s; %s", impl.Bad, ctx())
 		return false
 	}
+	return c02JudgePrefix(w, cfg, impl, ref, ctx) && c02JudgeReuse(w, cfg, impl, det, ctx)
+}
+
+// c02JudgeReuse judges the blocks presented to the same Decoder after its
+// first rejected block (impl.Post): each is compared with det(block index), the
+// reference decoding that block alone in a detached context. One signature per
+// oracle clause and kind of rejection: whatever leaks from a rejected block
+// shows under every verdict of the next block.
+func c02JudgeReuse(w *vx.W, cfg c02Cfg, impl *c02ImplRun, det func(bi int) *c02RefBlock, ctx func() string) bool {
+	if len(impl.Post) == 0 {
+		return true
+	}
+	how := "/after-block-rejected-by-write"
+	if impl.ErrAt == "close" {
+		how = "/after-block-rejected-by-close"
+	}
+	for i, p := range impl.Post {
+		bi := impl.ErrBlk + 1 + i
+		ref := det(bi)
+		rctx := func() string {
+			return fmt.Sprintf("block %d alone is %s (%s) with fields %s; %s", bi, ref.Status, ref.Detail, c02FieldList(ref.Fields), ctx())
+		}
+		w.Outcome("reuse: ref=" + ref.Status + " impl=" + c02ErrClass(p.Err))
+		if c02StExcluded(ref.Status) {
+			n := min(len(p.Fields), len(ref.Fields))
+			if !c02FieldsEqual(p.Fields[:n], ref.Fields[:n]) {
+				w.Failf("C02/fabricated-field"+how, "fields emitted for block %d before its first table-dependent representation are not those it contains; %s", bi, rctx())
+				return false
+			}
+			continue
+		}
+		if !c02IsPrefix(p.Fields, ref.Fields) {
+			w.Failf("C02/fabricated-field"+how, "fields emitted for block %d are not a prefix of what that block contains; %s", bi, rctx())
+			return false
+		}
+		switch {
+		case c02StIsError(ref.Status) && p.Err == nil:
+			w.Failf("C02/accepts-malformed"+how, "block %d is malformed but was accepted; %s", bi, rctx())
+			return false
+		case ref.Status == c02StOK && p.Err != nil:
+			cls := c02ErrClass(p.Err)
+			justified := false
+			switch cls {
+			case "string-length":
+				justified = cfg.MaxStr != 0 && ref.MaxStr > uint64(cfg.MaxStr)
+			case "varint-overflow":
+				justified = ref.LongInt
+			}
+			if !justified {
+				w.Failf("C02/rejects-valid"+how, "block %d is valid (largest string %d, long integer %v) but was rejected with %v at %s; %s", bi, ref.MaxStr, ref.LongInt, p.Err, p.ErrAt, rctx())
+				return false
+			}
+		case ref.Status == c02StOK:
+			if !c02FieldsEqual(p.Fields, ref.Fields) {
+				w.Failf("C02/drops-field"+how, "block %d accepted but with fewer fields than it contains; %s", bi, rctx())
+				return false
+			}
+		}
+	}
+	return true
+}
+
+// c02JudgePrefix judges the run up to and including the first rejected block.
+func c02JudgePrefix(w *vx.W, cfg c02Cfg, impl *c02ImplRun, ref *c02RefRun, ctx func() string) bool {
 	// no fabrication
 	if c02StExcluded(ref.Status) {
 		n := min(len(impl.Fields), len(ref.Fields))
@@ -111,19 +185,24 @@ func TestVerif_C02(t *testing.T) {
 		grid := c02Grid(!quick)
 		small := []c02Cfg{{4096, 2, 0}, {40, 2, 1}, {4096, 1, 2}, {0, 0, 5}}
 		c.Rule(fmt.Sprintf("inputs: (a) every byte string of length <=2 and every 3-byte string over a %d-byte boundary alphabet (thorough: additionally ALL 3-byte strings under the configuration table=4096 preload=2 maxstr=0, unsplit); (b) every sequence of 1..2 fragments of the %d-fragment representation alphabet and every 3-sequence of its first 14 (thorough: every 1..3-sequence of the %d-fragment wide alphabet plus all 4-sequences of the first 10), each also with its last fragment cut at every byte; every byte string of length 4 over a 10-byte (thorough: 12-byte) representation-aware alphabet (thorough: also length 5 under 4 configurations incl. one with a single preloaded entry); (c) integers with 1..11 continuation octets in every integer position (index, name index, table size, string lengths) in 4 fill patterns x 4 terminations x {nothing, one field} following. "+
-			"each input under every configuration of max string length {0,1,5} x table size {4096,40,0} x preloaded entries {2,0} (thorough: {0,1,2,5} x {4096,40,0,70} x {2,0}; here %d), as one block and as two blocks (Close in between) split at every interior position. non-trivial = input for which, in some configuration, the reference decoded at least one complete representation and the run was compared",
+			"(d) rejected-then-next-block: [nothing | one fragment] + one fragment cut at every byte position 1..len (complete included: the malformed fragments) as the first block, and every 1-sequence of the fragment alphabet plus every 2-sequence of its first 8 (thorough: wide alphabet, first 14) as the second block, presented as exactly these two blocks. "+
+			"each input under every configuration of max string length {0,1,5} x table size {4096,40,0} x preloaded entries {2,0} (thorough: {0,1,2,5} x {4096,40,0,70} x {2,0}; here %d), as one block and as two blocks (Close in between) split at every interior position. reuse: whenever the first of two blocks is rejected (Write error, then Close to end the block; or Close error on a block that ends inside a representation) the second block is given to the SAME Decoder as a new header block and judged against the reference decoding that block alone. non-trivial = input for which, in some configuration, the reference decoded at least one complete representation and the run was compared",
 			len(c02ByteAlphabet(quick)), len(c02Fragments(false)), len(c02Fragments(true)), len(grid)))
 		c.Assume("a table size update that follows a field representation in the same block is outside the compared domain: RFC 7541 §4.2 says where an encoder must put it but not what a decoder does otherwise (the implementation accepts it iff its table is empty); fields emitted before it are still compared")
-		c.Assume("the decoder is not used again after its first error; limit errors accepted for a well-formed block: ErrStringLength when some string of that block (wire length, decoded length, or a referenced table entry's name/value) exceeds the configured maximum, varint overflow when an integer uses more than 9 continuation octets (RFC 7541 §5.1 permits implementation limits)")
+		c.Assume("reuse after a rejected block: RFC 7541 defines no dynamic table state after a decoding error, so the block that follows a rejected block is compared only as far as it is table-independent: static-table references and literals are compared (emitted fields, acceptance of malformed input, rejection of valid input); from its first reference to a dynamic table index (>61) or dynamic table size update onwards nothing is compared (only the fields emitted before it), and the dynamic table after such a run is not compared (its size invariants are still checked after every call). A block rejected by Write is ended with Close (result ignored) before the next block; the decoder is not used again after a second rejected block")
+		c.Assume("limit errors accepted for a well-formed block: ErrStringLength when some string of that block (wire length, decoded length, or a referenced table entry's name/value) exceeds the configured maximum, varint overflow when an integer uses more than 9 continuation octets (RFC 7541 §5.1 permits implementation limits)")
 		c.Assume("Write-level splits inside a block are C03's subject; here every block is one Write")
 
-		var runs atomic.Int64
-		defer func() { c.Note("decoder_runs", runs.Load()) }()
+		var runs, reuses atomic.Int64
+		defer func() {
+			c.Note("decoder_runs", runs.Load())
+			c.Note("runs_reusing_the_decoder_after_a_rejected_block", reuses.Load())
+		}()
 		mkCheck := func(cfgs []c02Cfg, split bool) func(w *vx.W, x c02Case) {
 			return func(w *vx.W, x c02Case) {
 				b := c02Unhex(x.Block)
-				nruns := int64(0)
-				defer func() { runs.Add(nruns) }()
+				nruns, reused := int64(0), int64(0)
+				defer func() { runs.Add(nruns); reuses.Add(reused) }()
 				reached := false
 				// the reference does not depend on the string limit: one
 				// reference run per (table, preload, split)
@@ -132,30 +211,47 @@ func TestVerif_C02(t *testing.T) {
 					pre, cut int
 				}
 				refs := map[refKey]*c02RefRun{}
+				// nor does the detached reference for the block after a rejected
+				// one depend on the configuration at all: one per split
+				dets := map[int]*c02RefBlock{}
 				for _, cfg := range cfgs {
-					last := 0
+					first, last := 0, 0
 					if split {
 						last = len(b) - 1
 					}
-					for cut := 0; cut <= last; cut++ {
+					if x.Cut > 0 {
+						first, last = x.Cut, x.Cut
+					}
+					for cut := first; cut <= last; cut++ {
 						blocks := [][]byte{b}
 						chunks := [][][]byte{{b}}
 						if cut > 0 {
 							blocks = [][]byte{b[:cut], b[cut:]}
 							chunks = [][][]byte{{b[:cut]}, {b[cut:]}}
 						}
-						impl := c02RunImpl(cfg, chunks)
+						impl := c02RunImplReuse(cfg, chunks, true)
 						ref := refs[refKey{cfg.Tab, cfg.Pre, cut}]
 						if ref == nil {
 							ref = c02RunRef(cfg, blocks)
 							refs[refKey{cfg.Tab, cfg.Pre, cut}] = ref
 						}
+						det := func(bi int) *c02RefBlock {
+							// two blocks at most: bi == 1
+							if dets[cut] == nil {
+								res := c02NewDetachedRefDec().Block(blocks[bi])
+								dets[cut] = &res
+							}
+							return dets[cut]
+						}
 						nruns++
-						if !c02Judge(w, x, cfg, blocks, impl, ref) {
+						if !c02Judge(w, x, cfg, blocks, impl, ref, det) {
 							return
 						}
-						if ref.Reprs > 0 {
+						if ref.Reprs > 0 || len(impl.Post) > 0 && det(1).Reprs > 0 {
 							reached = true
+						}
+						if len(impl.Post) > 0 {
+							reused++
 						}
 						w.Outcome("ref=" + ref.Status + " impl=" + c02ErrClass(impl.Err))
 					}
@@ -182,7 +278,7 @@ func TestVerif_C02(t *testing.T) {
 				if cut < len(last.B) {
 					d = fmt.Sprintf("%s (last cut to %d)", desc, cut)
 				}
-				if !yield(c02Case{d, c02Hex(append(head[:len(head):len(head)], last.B[:cut]...))}) {
+				if !yield(c02Case{Desc: d, Block: c02Hex(append(head[:len(head):len(head)], last.B[:cut]...))}) {
 					return false
 				}
 			}
@@ -199,6 +295,48 @@ func TestVerif_C02(t *testing.T) {
 			}
 			if vx.Strings(c02Fragments(true), 1, 3, gen) {
 				vx.Strings(c02Fragments(false)[:10], 4, 4, gen)
+			}
+		}, check)
+
+		// (b2) reuse after a rejected block: a first block that ends inside a
+		// field representation (rejected by Close) or holds a malformed one
+		// (rejected by Write), then a complete second block for the same Decoder
+		vx.Enumerate(c, "rejected-then-next-block", vx.Opts{}, func(yield func(c02Case) bool) {
+			fr := c02Fragments(!quick)
+			tail2 := fr[:vx.Pick(c, 8, 14)]
+			var tails [][]c02Frag
+			for _, f := range fr {
+				tails = append(tails, []c02Frag{f})
+			}
+			for _, f := range tail2 {
+				for _, g := range tail2 {
+					tails = append(tails, []c02Frag{f, g})
+				}
+			}
+			heads := append([]c02Frag{{}}, fr...)
+			for _, h := range heads {
+				for _, m := range fr {
+					for cut := len(m.B); cut >= 1; cut-- {
+						first := append(append([]byte(nil), h.B...), m.B[:cut]...)
+						d := m.Name
+						if cut < len(m.B) {
+							d = fmt.Sprintf("%s (cut to %d)", m.Name, cut)
+						}
+						if h.Name != "" {
+							d = h.Name + ", " + d
+						}
+						for _, t := range tails {
+							b, names := first[:len(first):len(first)], []string(nil)
+							for _, f := range t {
+								b = append(b, f.B...)
+								names = append(names, f.Name)
+							}
+							if !yield(c02Case{Desc: d + " | " + strings.Join(names, ", "), Block: c02Hex(b), Cut: len(first)}) {
+								return
+							}
+						}
+					}
+				}
 			}
 		}, check)
 
@@ -239,7 +377,7 @@ func TestVerif_C02(t *testing.T) {
 									continue
 								}
 								b = append(b, c02Unhex(tail)...)
-								if !yield(c02Case{fmt.Sprintf("%s integer: %d continuation octets %s, end %s, then %q", h.name, k, fill, term, tail), c02Hex(b)}) {
+								if !yield(c02Case{Desc: fmt.Sprintf("%s integer: %d continuation octets %s, end %s, then %q", h.name, k, fill, term, tail), Block: c02Hex(b)}) {
 									return
 								}
 							}
@@ -255,10 +393,10 @@ func TestVerif_C02(t *testing.T) {
 			all[i] = byte(i)
 		}
 		vx.Enumerate(c, "short-bytes", vx.Opts{NoSample: true}, func(yield func(c02Case) bool) {
-			if !vx.Strings(all, 0, 2, func(b []byte) bool { return yield(c02Case{"bytes", c02Hex(b)}) }) {
+			if !vx.Strings(all, 0, 2, func(b []byte) bool { return yield(c02Case{Desc: "bytes", Block: c02Hex(b)}) }) {
 				return
 			}
-			vx.Strings(c02ByteAlphabet(quick), 3, 3, func(b []byte) bool { return yield(c02Case{"bytes", c02Hex(b)}) })
+			vx.Strings(c02ByteAlphabet(quick), 3, 3, func(b []byte) bool { return yield(c02Case{Desc: "bytes", Block: c02Hex(b)}) })
 		}, check)
 
 		// (b') representation-aware byte strings
@@ -267,15 +405,15 @@ func TestVerif_C02(t *testing.T) {
 			aware = aware[:10]
 		}
 		vx.Enumerate(c, "aware-bytes", vx.Opts{NoSample: true}, func(yield func(c02Case) bool) {
-			vx.Strings(aware, 4, 4, func(b []byte) bool { return yield(c02Case{"bytes", c02Hex(b)}) })
+			vx.Strings(aware, 4, 4, func(b []byte) bool { return yield(c02Case{Desc: "bytes", Block: c02Hex(b)}) })
 		}, check)
 
 		if !quick {
 			vx.Enumerate(c, "aware-bytes-5", vx.Opts{NoSample: true}, func(yield func(c02Case) bool) {
-				vx.Strings(aware, 5, 5, func(b []byte) bool { return yield(c02Case{"bytes", c02Hex(b)}) })
+				vx.Strings(aware, 5, 5, func(b []byte) bool { return yield(c02Case{Desc: "bytes", Block: c02Hex(b)}) })
 			}, mkCheck(small, true))
 			vx.Enumerate(c, "all-3-bytes", vx.Opts{NoSample: true}, func(yield func(c02Case) bool) {
-				vx.Strings(all, 3, 3, func(b []byte) bool { return yield(c02Case{"bytes", c02Hex(b)}) })
+				vx.Strings(all, 3, 3, func(b []byte) bool { return yield(c02Case{Desc: "bytes", Block: c02Hex(b)}) })
 			}, mkCheck(small[:1], false))
 		}
 	})
